@@ -5,6 +5,8 @@
      TRange      TensorRange::from_all(source, ranges)      src/tensors/views/ranges.rs
      TAccess     TensorAccess::from(source, dims)           src/tensors/indexing.rs
      TTranspose  TensorTranspose::from(source, dims)        src/tensors/indexing.rs
+     TMask       TensorMask::from_all(source, masks)        src/tensors/views/ranges.rs
+     TRename     TensorRename::from(source, dims)           src/tensors/views/renamed.rs
    Each constructor transcribes the validation of the Rust constructor, `src_shape` is
    `view_shape`, `src_get` is `get_reference` and `src_set` is a write through
    `get_reference_mut`.  Executable definitions only. *)
@@ -45,6 +47,17 @@ Fixpoint map_indexes_by_range (idx : list N) (rg : list (N * N)) : option (list 
   | _, _ => None
   end.
 
+(* IndexRange::mask: if index < start { index } else { index.saturating_add(length) } *)
+Definition range_mask (r : N * N) (i : N) : N :=
+  if i <? fst r then i else N.min (i + snd r) usize_max.
+
+(* map_indexes_by_mask *)
+Fixpoint map_indexes_by_mask (idx : list N) (mk : list (N * N)) : list N :=
+  match idx, mk with
+  | i :: idx', r :: mk' => range_mask r i :: map_indexes_by_mask idx' mk'
+  | _, _ => []
+  end.
+
 Section TSource.
 Context {A : Type}.
 
@@ -53,7 +66,9 @@ Inductive tsrc : Type :=
 | TRev (s : tsrc) (rev : list bool)
 | TRange (s : tsrc) (rg : list (N * N))
 | TAccess (s : tsrc) (tbl : list (nat * nat))
-| TTranspose (s : tsrc) (tbl : list (nat * nat)).
+| TTranspose (s : tsrc) (tbl : list (nat * nat))
+| TMask (s : tsrc) (mk : list (N * N))
+| TRename (s : tsrc) (names : list name).
 
 (* TensorRef::view_shape *)
 Fixpoint src_shape (s : tsrc) : shape :=
@@ -66,6 +81,12 @@ Fixpoint src_shape (s : tsrc) : shape :=
       (* names = source.view_shape(); order = access.shape(); from_fn(|d| (names[d].0, order[d].1)) *)
       map (fun p => (fst (fst p), snd (snd p)))
           (combine (src_shape s') (map_shape_to_requested tbl (src_shape s')))
+  | TMask s' mk =>
+      (* pair.1 -= mask.length *)
+      map (fun p => (fst (fst p), snd (fst p) - snd (snd p))) (combine (src_shape s') mk)
+  | TRename s' names =>
+      (* from_fn(|d| (self.dimensions[d], source_shape[d].1)) *)
+      map (fun p => (snd p, snd (fst p))) (combine (src_shape s') names)
   end.
 
 (* TensorRef::get_reference *)
@@ -80,6 +101,8 @@ Fixpoint src_get (s : tsrc) (idx : list N) : option A :=
       end
   | TAccess s' tbl => src_get s' (map_dimensions_to_source tbl idx 0)
   | TTranspose s' tbl => src_get s' (map_dimensions_to_source tbl idx 0)
+  | TMask s' mk => src_get s' (map_indexes_by_mask idx mk)
+  | TRename s' _ => src_get s' idx
   end.
 
 (* a write through TensorMut::get_reference_mut *)
@@ -97,13 +120,15 @@ Fixpoint src_set (s : tsrc) (idx : list N) (v : A) : option tsrc :=
       option_map (fun x => TAccess x tbl) (src_set s' (map_dimensions_to_source tbl idx 0) v)
   | TTranspose s' tbl =>
       option_map (fun x => TTranspose x tbl) (src_set s' (map_dimensions_to_source tbl idx 0) v)
+  | TMask s' mk => option_map (fun x => TMask x mk) (src_set s' (map_indexes_by_mask idx mk) v)
+  | TRename s' names => option_map (fun x => TRename x names) (src_set s' idx v)
   end.
 
 (* the tensor at the bottom of the term *)
 Fixpoint src_base (s : tsrc) : tensor A :=
   match s with
   | TBase t => t
-  | TRev s' _ | TRange s' _ | TAccess s' _ | TTranspose s' _ => src_base s'
+  | TRev s' _ | TRange s' _ | TAccess s' _ | TTranspose s' _ | TMask s' _ | TRename s' _ => src_base s'
   end.
 
 (* ---- constructors ---- *)
@@ -137,6 +162,18 @@ Definition ttranspose_from (s : tsrc) (dims : list name) : outcome tsrc :=
   | None => Panic
   end.
 
+(* TensorMask::from_all(source, [Some(mask); D]) -> clip_from: every mask is clipped to the source
+   length, what remains (length - mask.length) must be a valid shape, else Err(shape) *)
+Definition tmask_from_all (s : tsrc) (masks : list (N * N)) : outcome tsrc :=
+  let sh := src_shape s in
+  let clipped := map (fun p => range_clip (snd p) (snd (fst p))) (combine sh masks) in
+  let sh' := map (fun p => (fst (fst p), snd (fst p) - snd (snd p))) (combine sh clipped) in
+  if valid_shape_b sh' then Ok (TMask s clipped) else Err (sshape sh').
+
+(* TensorRename::from(source, dims): panics on duplicate names *)
+Definition trename_from (s : tsrc) (dims : list name) : outcome tsrc :=
+  if has_duplicates dims then Panic else Ok (TRename s dims).
+
 End TSource.
 Arguments tsrc A : clear implicits.
 
@@ -146,6 +183,8 @@ Arguments tsrc A : clear implicits.
      (2 src ((start len)…)) TensorRange::from_all(src, [Some((start, len)); D])
      (3 src (names))       TensorAccess::from(src, names)
      (4 src (names))       TensorTranspose::from(src, names)
+     (5 src ((start len)…)) TensorMask::from_all(src, [Some((start, len)); D])
+     (6 src (names))       TensorRename::from(src, names)
    Any failure of a constructor is reported as Panic / Err of the whole term. *)
 Fixpoint dsrc (fuel : nat) (s : sx) : option (outcome (tsrc Z)) :=
   match fuel with
@@ -179,6 +218,19 @@ Fixpoint dsrc (fuel : nat) (s : sx) : option (outcome (tsrc Z)) :=
         match dsrc f s', dnames dims with
         | Some o, Some dims => Some (obind o (fun x => if Nat.eqb (length dims) (length (src_shape x))
                                                        then ttranspose_from x dims else Panic))
+        | _, _ => None
+        end
+    | SL [SZ 5%Z; s'; rg] =>
+        match dsrc f s', dlist (dpair dN dN) rg with
+        | Some o, Some rg =>
+            Some (obind o (fun x => if Nat.eqb (length rg) (length (src_shape x))
+                                    then tmask_from_all x rg else Panic))
+        | _, _ => None
+        end
+    | SL [SZ 6%Z; s'; dims] =>
+        match dsrc f s', dnames dims with
+        | Some o, Some dims => Some (obind o (fun x => if Nat.eqb (length dims) (length (src_shape x))
+                                                       then trename_from x dims else Panic))
         | _, _ => None
         end
     | _ => None
